@@ -260,3 +260,23 @@ func TestStreamEth(t *testing.T) {
 	}
 	out.write(t, "eth")
 }
+
+// TestStreamDet generates and replays the determinism histories (C20).
+func TestStreamDet(t *testing.T) {
+	seed := uint64(envInt("VERIF_SEED", 1))
+	cases := envInt("VERIF_CASES", 4)
+	nops := envInt("VERIF_OPS", 60)
+	replicas := 2
+	if os.Getenv("VERIF_TIER") == "thorough" {
+		replicas = 4
+	}
+	out := &streamOut{stats: map[string]int{}}
+	for i := 0; i < cases; i++ {
+		r := &Rng{s: seed*1000003 + uint64(i)*7919 + 101}
+		w := NewWorld(t, 3)
+		g := &DetGen{w: w, r: r, stats: map[string]int{}}
+		g.Run(nops, i, replicas)
+		out.add(w, g.stats)
+	}
+	out.write(t, "det")
+}
